@@ -110,6 +110,8 @@ pub struct Ctx {
     pub scale: f64,
     /// bound on proptest shrink iterations (lower it for expensive checkers)
     pub max_shrink: u32,
+    /// this worker is the one that runs the heavy enumerated cases of its check (multi-MiB messages)
+    pub primary: bool,
     pub violations: Vec<Value>,
     pub harness_errors: Vec<String>,
     pub subs: Vec<Value>,
@@ -142,6 +144,7 @@ impl Ctx {
             only: Vec::new(),
             scale: 1.0,
             max_shrink: 20_000,
+            primary: false,
             violations: Vec::new(),
             harness_errors: Vec::new(),
             subs: Vec::new(),
